@@ -21,3 +21,8 @@ run from_u32_to_as src/bytewise.rs 's/usize::from_u32(state_id)/(state_id as usi
 run early_return_style src/build_helper.rs 's/self.items\[self.offset(idx)\]/self.items[self.offset(idx) + 0]/' helper
 run push_before_use_index src/bytewise/builder.rs '/helper.use_index(child_idx);/{N;N;N;s/\(.*helper.use_index(child_idx);\)\n\(.*\)\n\(.*\)\n\(.*stack.push(child_id);\)/\4\n\1\n\2\n\3/}' build_bw
 run cw_push_first src/charwise/builder.rs '/helper.use_index(child_idx);/{N;N;N;s/\(.*helper.use_index(child_idx);\)\n\(.*\)\n\(.*\)\n\(.*stack.push(child_id);\)/\4\n\1\n\2\n\3/}' build_cw
+run helper_swap_next_prev_init src/build_helper.rs '/\*self.get_mut(idx).next_mut() = idx + 1;/{N;s/\(.*next_mut() = idx + 1;\)\n\(.*prev_mut() = idx.wrapping_sub(1);\)/\2\n\1/}' helper
+run helper_swap_unlink src/build_helper.rs '/\*self.get_mut(prev).next_mut() = next;/{N;s/\(.*get_mut(prev).next_mut() = next;\)\n\(.*get_mut(next).prev_mut() = prev;\)/\2\n\1/}' helper
+run helper_swap_splice src/build_helper.rs '/\*self.get_mut(old_len).prev_mut() = tail_idx;/{N;s/\(.*get_mut(old_len).prev_mut() = tail_idx;\)\n\(.*get_mut(tail_idx).next_mut() = old_len;\)/\2\n\1/}' helper
+run iter_bw_match_field_order src/bytewise/iter.rs '0,/length: usize::from_u32(out.length()),/{/length: usize::from_u32(out.length()),/{N;s/\(.*length: usize::from_u32(out.length()),\)\n\(.*end: pos + 1,\)/\2\n\1/}}' iter_bw
+run ser_cw_len_expr src/charwise.rs 's/let (num_states, source) = u32::deserialize_from_slice(source);/let (num_states, source) = <u32 as Serializable>::deserialize_from_slice(source);/' ser_cw
